@@ -156,6 +156,26 @@ def check(tier, seed):
                 req_tok = '-'      # '' is falsy: same as not given (the model's requested())
             cases.append(Case('gpsd-handshake', f'gpsd {req_tok} ' + ' '.join(chunks_t), impl, desc,
                               nontrivial=bool(dev_msgs), kind='+'.join(sorted(kinds))[:50]))
+        # fixed corpus (no random choice): device lists that contain only LOOK-ALIKES of the requested device (same base name in
+        # another directory, the bare name, a longer / shorter / differently cased path) - nothing is selected; then the same
+        # list with the requested device at the end - it is selected
+        for requested in ('/dev/gnss0', '/dev/b', '/dev/ttyACM1'):
+            base = requested.rsplit('/', 1)[1]
+            alike = ['/dev/serial/by-id/' + base, base, 'dev/' + base, requested + '0', requested[:-1], '/dev/' + base.upper(), '/x' + requested, requested + '/', ' ' + requested]
+            for paths, want in ((alike, 'sel=None enabled=False'), (alike[:3], 'sel=None enabled=False'), (alike + [requested], f'sel={requested} enabled=True')):
+                v = {'class': 'DEVICES', 'devices': [{'class': 'DEVICE', 'path': p_} for p_ in paths]}
+                chunk = json.dumps(v).encode('utf-8') + b'\r\n'
+                srv, SV = BK.gpsd_server(requested)
+
+                def run1(srv=srv, chunk=chunk):
+                    srv._parse_gpsd_msg(chunk)
+                    return f'sel={srv.selected_device} enabled={srv.enabled} release=None'
+                impl = C.guarded(run1)
+                desc = {'requested': requested, 'chunks': [chunk.decode('latin-1')], 'kind': 'fixed look-alike paths'}
+                if not impl.startswith(want + ' '):
+                    res.violation('device selection differs from the rule (requested-if-listed, else first, else none): a path that merely resembles the requested device',
+                                  {'property': 'C20', 'input': desc, 'expected': want, 'result': impl}, 'c20-select|lookalike')
+                cases.append(Case('gpsd-handshake', f'gpsd {requested.encode().hex()} L:' + jtok(v), impl, desc, nontrivial=True, kind='fixed-lookalike'))
         n_setup = BK.gpsd_setup_cases(res, 'C20', rng, 40 if tier == 'quick' else 1500, PATHS, jtok, cases)
         res.notes['setup_runs'] = n_setup
         res.compare(cases)
